@@ -9,6 +9,9 @@ import (
 	"os"
 	"sort"
 	"strings"
+
+	"gorm.io/gorm"
+	"gorm.io/gorm/clause"
 )
 
 type c06xGen struct {
@@ -358,10 +361,6 @@ func c06xSessTie(r *Result, facts []c06xSessFact, hist map[int]c06xHist) {
 	}
 	for i, f := range facts {
 		var m c06xLeanSess
-		if string(res[i]) == `"bad-op"` { // TEMP
-			r.H("sess_tie", "lean op missing")
-			return
-		}
 		if err := json.Unmarshal(res[i], &m); err != nil {
 			r.Violate(Violation{Kind: "correspondence", Suite: "sesstie", Input: f, Observed: string(res[i]), Expected: "a result object"})
 			return
@@ -384,6 +383,140 @@ func c06xSessTie(r *Result, facts []c06xSessFact, hist map[int]c06xHist) {
 			r.Violate(Violation{Kind: "correspondence", Suite: "sesstie", Input: hist[i], Observed: got, Expected: want,
 				Note: fmt.Sprintf("Session({%s}) at op %d: real receiver snapshot / result vs the model's run of the regenerated Session() body; %s",
 					strings.Join(c06xFlagList(f.Flags), ","), f.Op, hist[i].Desc())})
+			return
+		}
+	}
+}
+
+// c06xEntries: the clause map as the model sees it — per key the shape of the entry
+func c06xEntries(st *gorm.Statement) [][]interface{} {
+	var ks []string
+	for k := range st.Clauses {
+		ks = append(ks, k)
+	}
+	sort.Strings(ks)
+	out := [][]interface{}{}
+	b := func(x bool) int {
+		if x {
+			return 1
+		}
+		return 0
+	}
+	for _, k := range ks {
+		c := st.Clauses[k]
+		out = append(out, []interface{}{k, b(c.Expression != nil), b(c.BeforeExpression != nil), b(c.AfterNameExpression != nil),
+			b(c.AfterExpression != nil), b(c.Builder != nil)})
+	}
+	return out
+}
+
+// c06xShapeTie: (a) Statement.clone's clause-map copy vs the model's cloneMap (regenerated copy loop) on statements
+// that carry entries of every shape, also after a real query has left its marker entries; (b) the joins in the FROM
+// clause while a query is built and after it, for k executed queries, vs the model's queryRounds (regenerated restore).
+func c06xShapeTie(r *Result, rng *rand.Rand, w *c06xWorld, rounds int) {
+	type cas struct {
+		desc string
+		got  string
+	}
+	var ops [][]interface{}
+	var cases []cas
+	for i := 0; i < rounds; i++ {
+		g := &c06xGen{rng: rng, clone: []int{1}, used: []bool{false}, fin: []int{-1}, dry: []bool{false}, tx: []bool{false}, read: []bool{false}, after: []bool{false}}
+		g.h.Model = rng.Intn(2)
+		s := 0
+		for j, k := 0, 1+rng.Intn(5); j < k; j++ {
+			s = g.chainOp(s, true)
+		}
+		if rng.Intn(2) == 0 {
+			g.add(c06xOp{N: "fin", S: s, A: []int{0, 4}[rng.Intn(2)]}, 0)
+		}
+		g.add(c06xOp{N: "sess", S: s}, 2)
+		hIdx := len(g.h.Ops)
+		g.add(c06xOp{N: "unscoped", S: hIdx}, 0)
+		hs := c06xHandles(w, g.h)
+		if hs == nil {
+			continue
+		}
+		parent, child := hs[hIdx], hs[hIdx+1]
+		in := c06xEntries(parent.Statement)
+		ops = append(ops, []interface{}{"c06.clonemap", in})
+		cases = append(cases, cas{desc: g.h.Desc(), got: canon(c06xEntries(child.Statement))})
+		for _, e := range in {
+			r.H("clone_tie_entry_shape", fmt.Sprint(e[1:]...))
+		}
+	}
+	// FROM joins through k queries
+	type fcase struct {
+		c, n, k       int
+		during, after int
+		desc          string
+	}
+	var fcs []fcase
+	for i := 0; i < rounds/2; i++ {
+		c, n, k := rng.Intn(3), rng.Intn(3), 1+rng.Intn(3)
+		h := c06xHist{Model: 1}
+		s := 0
+		add := func(o c06xOp) { o.S = s; h.Ops = append(h.Ops, o); s = len(h.Ops) }
+		if c > 0 {
+			add(c06xOp{N: "fromj", A: c - 1, B: rng.Intn(3)})
+		}
+		for j := 0; j < n; j++ {
+			add(c06xOp{N: "joinsR", A: j})
+		}
+		if s == 0 {
+			add(c06xOp{N: "limit", A: 3})
+		}
+		q := s
+		for j := 0; j < k; j++ {
+			h.Ops = append(h.Ops, c06xOp{N: "fin", S: q, A: []int{0, 4}[rng.Intn(2)]})
+		}
+		w.rec.Reset()
+		run := c06xExec(w, h, nil)
+		hs := c06xHandles(w, h)
+		if run.Panic != "" || hs == nil {
+			continue
+		}
+		last := run.Obs[len(h.Ops)-1]
+		during := 0
+		if len(last.Events) > 0 {
+			during = strings.Count(last.Events[len(last.Events)-1], " JOIN ")
+		}
+		after := -1
+		if f, ok := hs[q].Statement.Clauses["FROM"].Expression.(clause.From); ok {
+			after = len(f.Joins)
+		}
+		fcs = append(fcs, fcase{c, n, k, during, after, h.Desc()})
+		ops = append(ops, []interface{}{"c06.from", c, n, k})
+	}
+	res, err := AskLean(ops)
+	if err != nil {
+		r.Violate(Violation{Kind: "correspondence", Suite: "shapetie", Input: "driver", Observed: err.Error(), Expected: "answers"})
+		return
+	}
+	for i, c := range cases {
+		r.CorrCompared++
+		if want := canonRaw(res[i]); want != c.got {
+			r.CorrDiffs++
+			r.Violate(Violation{Kind: "correspondence", Suite: "shapetie", Input: c.desc, Observed: c.got, Expected: want,
+				Note: "clause map of a chain started from a reusable handle (real Statement.clone) vs the model's cloneMap of the handle's map; entries are [key, Expression, Before, AfterName, After, Builder present]"})
+			return
+		}
+	}
+	for i, c := range fcs {
+		r.CorrCompared++
+		var m struct{ During, After int }
+		if err := json.Unmarshal(res[len(cases)+i], &m); err != nil {
+			r.CorrDiffs++
+			r.Violate(Violation{Kind: "correspondence", Suite: "shapetie", Input: c.desc, Observed: string(res[len(cases)+i]), Expected: "the model's FROM joins"})
+			return
+		}
+		r.H("from_tie", fmt.Sprintf("caller=%d stmt=%d", c.c, c.n))
+		if m.During != c.during || m.After != c.after {
+			r.CorrDiffs++
+			r.Violate(Violation{Kind: "correspondence", Suite: "shapetie", Input: c.desc,
+				Observed: fmt.Sprintf("joins in FROM: %d in the last query, %d left in the statement after %d queries", c.during, c.after, c.k),
+				Expected: fmt.Sprintf("joins in FROM: %d in the last query, %d left in the statement after %d queries", m.During, m.After, c.k),
+				Note:     "real BuildQuerySQL / AfterQuery vs the model's queryRounds over the regenerated restore literal"})
 			return
 		}
 	}
@@ -430,7 +563,7 @@ func c06xStats(r *Result, h c06xHist) bool {
 
 func init() {
 	register("C06", func(r *Result, rng *rand.Rand, tier string) {
-		rounds, maxOps := 700, 14
+		rounds, maxOps := 3000, 14
 		if tier == "thorough" {
 			rounds, maxOps = 12000, 24
 		} else if tier == "search" {
@@ -471,6 +604,7 @@ func init() {
 			}
 		}
 		flush()
+		c06xShapeTie(r, rng, w, rounds/2)
 	})
 	replayers["C06/real"] = func(r *Result, input json.RawMessage) {
 		var h c06xHist
